@@ -773,7 +773,8 @@ fn run_case(lib: &Lib, c: &Case, rep: &mut Report) {
             let declined: Vec<String> = p.names.iter().enumerate().filter(|(i, _)| *decline != 0 && i % 2 == (*decline as usize) % 2).map(|(_, n)| n.clone()).collect();
             let cfg = Cfg::new(*layers);
             let Ok(Ok((archive, _))) = guard(|| prog::build(p, &cfg)) else {
-                rep.count("archive_not_built(see C01)", 1);
+                rep.evaluations += 1;
+                rep.violate(Violation { sig: json!({"kind": "subject_archive_cannot_be_built", "layers": layers.tag()}), detail: format!("{} / {}: a valid writer program gives no archive (Rust writer); an explorer that drops such inputs would pass vacuously", p.short(), layers.tag()), replay: json!({"program": p.json(), "layers": layers.tag()}), weight: 0 });
                 return;
             };
             let mut model = p.model();
